@@ -367,11 +367,20 @@ impl<'c, Param, Yield, Return> Coroutine<'c, Param, Yield, Return> {
             }
         }
         DefaultStack::new(stack_size).map(|stack| {
+            // RAII guard to ensure stack info is popped even if
+            // `callback` panics/unwinds during on_stack().
+            struct ThreadStackGuard;
+            impl Drop for ThreadStackGuard {
+                fn drop(&mut self) {
+                    _ = STACK_INFOS.with(|s| s.borrow_mut().pop_back());
+                }
+            }
             STACK_INFOS.with(|s| {
                 s.borrow_mut().push_back(StackInfo::from(&stack));
             });
+            let guard = ThreadStackGuard;
             let r = corosensei::on_stack(stack, callback);
-            _ = STACK_INFOS.with(|s| s.borrow_mut().pop_back());
+            drop(guard);
             r
         })
     }
